@@ -9,6 +9,8 @@ pub mod c04;
 pub mod common;
 pub mod c07;
 pub mod c08;
+pub mod c09;
+pub mod c10;
 pub mod c11;
 pub mod c12;
 pub mod c13;
@@ -31,6 +33,8 @@ pub fn all() -> Vec<Box<dyn Check>> {
         Box::new(crash::Crash { id: "C06" }),
         Box::new(c07::C07),
         Box::new(c08::C08),
+        Box::new(c09::C09),
+        Box::new(c10::C10),
         Box::new(c11::C11),
         Box::new(c12::C12),
         Box::new(c13::C13),
